@@ -1,6 +1,7 @@
 import PV.Model.FloatArith
 import PV.Generated.Score
 import PV.Model.SCC
+import PV.Model.Grouping
 /-!
 Line-protocol driver: runs the executable models on the cases the harness also ran on the
 implementation.  Core-only imports (links as a native executable).
@@ -50,6 +51,45 @@ def runScc (t : Array String) : String :=
     let cyc := joinWith ";" (cs.map fun c => joinWith "," (c.map toString))
     s!"{cyc}|{joinWith "," st.severities}|{st.totalCycles}|{st.modulesInCycles}"
 
+def showGroups (gs : List (List Nat)) : String :=
+  joinWith ";" (gs.map fun c => joinWith "," (c.map toString))
+
+def parseGroups (s : String) : List (List Nat) :=
+  if s == "-" then [] else
+  (s.splitOn ";").map fun g => (g.splitOn ",").map fun x => (x.toNat?.getD 0)
+
+/-- `group <mode> n theta k <impl-groups|-> u v sim …`
+    connected / k_core: prints the MODEL's groups, then the checker verdicts on the implementation's groups;
+    complete_linkage / star: prints `-`, then the verdicts. Verdicts: common, mode-contract (1/0). -/
+def runGroup (t : Array String) : String :=
+  if t.size < 5 then "bad-op" else
+  let mode := t[0]!
+  let n := (tokI t[1]!).toNat
+  let θ := (tokI t[2]!).toNat
+  let k := PV.Grouping.effK (tokI t[3]!).toNat
+  let impl := parseGroups t[4]!
+  let rec pairs (i : Nat) (fuel : Nat) (acc : List PV.Grouping.Pair) : List PV.Grouping.Pair :=
+    match fuel with
+    | 0 => acc.reverse
+    | f + 1 => if i + 2 < t.size then
+        pairs (i + 3) f ({ u := (tokI t[i]!).toNat, v := (tokI t[i+1]!).toNat, sim := (tokI t[i+2]!).toNat } :: acc)
+      else acc.reverse
+  let ps := pairs 5 t.size []
+  let b (x : Bool) : String := if x then "1" else "0"
+  let common := PV.Grouping.checkCommon impl
+  match mode with
+  | "connected" =>
+    match PV.Grouping.connectedGroups n θ ps with
+    | none => "fuel-exhausted"
+    | some gs => s!"{showGroups gs}|{b common}|1"
+  | "k_core" =>
+    match PV.Grouping.kcoreGroups n θ k ps with
+    | none => "fuel-exhausted"
+    | some gs => s!"{showGroups gs}|{b common}|{b (PV.Grouping.checkKCore θ k ps impl)}"
+  | "complete_linkage" => s!"-|{b common}|{b (PV.Grouping.checkComplete θ ps impl)}"
+  | "star" => s!"-|{b common}|{b (PV.Grouping.checkStar θ ps impl)}"
+  | _ => "bad-op"
+
 def step (line : String) : String :=
   let parts := (line.splitOn " ").filter (· ≠ "")
   match parts with
@@ -59,6 +99,7 @@ def step (line : String) : String :=
     match cmd with
     | "score" => runScore t
     | "scc" => runScc t
+    | "group" => runGroup t
     | _ => "bad-op"
 
 partial def loop (h : IO.FS.Stream) (out : IO.FS.Stream) : IO Unit := do
